@@ -1234,6 +1234,15 @@ def _nan_to_num(x, nan=0.0, posinf=None, neginf=None, copy=True):
     return FFloat(z3.If(z3.fpIsNaN(f), tf(nan).f, z3.If(z3.fpIsInf(f), z3.If(z3.fpIsNegative(f), tf(neginf).f, tf(posinf).f), f)))
 
 
+def _np_nan_to_num(x, copy=True, nan=0.0, posinf=None, neginf=None):
+    """np.nan_to_num; copy=False on an array operand replaces the values in place and returns the operand itself"""
+    r = ew(lambda e: _nan_to_num(e, nan, posinf, neginf), x)
+    if not copy and isinstance(x, SymArray):
+        x.a[...] = _obj(r)
+        return x if x.a.ndim else x.a.item()
+    return r
+
+
 def _isclose(a, b, rtol=1e-5, atol=1e-8, equal_nan=False):
     a, b = tf(a), tf(b)
     # numpy: finite(b) & (|a-b| <= atol + rtol*|b|)  |  (a == b)   [| both nan]
@@ -1338,6 +1347,26 @@ def same(a, b):
     if S.mode == "R":
         return ZB(OR(AND(a.nan, b.nan), AND(a.pinf, b.pinf), AND(a.ninf, b.ninf), AND(a.fin(), b.fin(), a.v == b.v)))
     return z3.Or(z3.And(z3.fpIsNaN(a.f), z3.fpIsNaN(b.f)), a.f == b.f)
+
+
+def abstract(name, *args, lo=None, hi=None):
+    """application of an uninterpreted function (Mode R): used by harnesses to make operators/terms/hedges abstract
+    through the library's own extension points.  Contract of the stub: any non-finite operand gives NaN; the result is
+    finite otherwise (optionally within [lo, hi]).  Arrays are handled elementwise (NumPy broadcasting)."""
+    if S.mode != "R":
+        raise Unsupported("abstract functions are Mode R only")
+
+    def one(*xs):
+        xs = [tf(x) for x in xs]
+        f = uf("A_" + name, len(xs))
+        e = f(*[x.v for x in xs])
+        if lo is not None:
+            S.add_side(e >= lo)
+        if hi is not None:
+            S.add_side(e <= hi)
+        return RFloat(e, OR(*[NOT(x.fin()) for x in xs]))
+
+    return ew(one, *args)
 
 
 # ----------------------------------------------------------------------------------------------
@@ -1988,7 +2017,7 @@ TABLE = {
     "logical_not": _lift(_logical_not), "logical_and": _lift(_logical_and), "logical_or": _lift(_logical_or),
     "bitwise_and": _lift(lambda a, b: tb_(a) & tb_(b)), "bitwise_or": _lift(lambda a, b: tb_(a) | tb_(b)),
     "invert": _lift(lambda a: ~tb_(a)),
-    "nan_to_num": _lift(_nan_to_num), "isclose": _lift(_isclose), "sign": _lift(_sign),
+    "nan_to_num": _np_nan_to_num, "isclose": _lift(_isclose), "sign": _lift(_sign),
     "floor": _lift(_floor), "ceil": _lift(_ceil), "round": _lift(_round), "around": _lift(_round), "rint": _lift(_round),
     "clip": _lift(_clip), "arctan2": _lift(_arctan2),
     "full_like": _np_full_like, "full": _np_full,
